@@ -7,6 +7,7 @@ import Driver.C10
 import Driver.C12
 import Driver.C13
 import Driver.C14
+import Driver.C15
 import Driver.C16
 import Driver.C17
 import Driver.C18
@@ -35,6 +36,7 @@ def dispatch (prop : String) (args : List String) (impl : String) : Verdict :=
   | "C12" => C12.handle args impl
   | "C13" => C13.handle args impl
   | "C14" => C14.handle args impl
+  | "C15" => C15.handle args impl
   | "C16" => C16.handle args impl
   | "C17" => C17.handle args impl
   | "C18" => C18.handle args impl
